@@ -180,6 +180,9 @@ long long c_delineate_boundary(long long nrows, long long ncols,
         return CATCHMENT_ERROR + __LINE__;
 
     /* Grid size */
+    if(nrows<1 || ncols<1)
+        return CATCHMENT_ERROR + __LINE__;
+
     ngrid = nrows*ncols;
 
     /* Maximum distance to seek for next boundary point */
@@ -190,6 +193,10 @@ long long c_delineate_boundary(long long nrows, long long ncols,
 
     /* Sort the idxcells_area */
     qsort(idxcells_area, nval, sizeof(long long), compare);
+
+    /* Check that all cells (now sorted) are in the grid */
+    if(idxcells_area[0]<0 || idxcells_area[nval-1]>=ngrid)
+        return CATCHMENT_ERROR + __LINE__;
 
     /* Shifting of cell index  to look for neighbouring cells */
     shift[0] = -1;
